@@ -23,6 +23,7 @@ def make_world(seed, mode, n_groups):
     groups = GROUP_NAMES[:n_groups]
     truth = {}
     files = None
+    longest = max(w.chrom_order, key=w.chrom_len)
     for i, r in enumerate(w.reads):
         if r.flag & 4:
             continue
@@ -30,6 +31,9 @@ def make_world(seed, mode, n_groups):
         # a group absent from some chromosome
         if r.chrom == "chr3" and g == groups[0]:
             g = groups[1 % n_groups]
+        # ... and a group that occurs on the longest sequence (collected first) only
+        if n_groups >= 3 and g == groups[-1] and r.chrom != longest:
+            g = groups[1]
         ungroupable = rng.random() < 0.06
         if mode == "tag":
             r.tags = [] if ungroupable else [("CB", g)]
@@ -127,15 +131,34 @@ def run(chk, scratch):
                 extra += ["--read_group", "read_id:_"]
             else:
                 # the table in one of three layouts: read<TAB>group (columns 0:1), group<TAB>read (1:0), read,barcode,group (0:2, comma)
-                layout = (seed + hs) % 3
+                layout = 2 if hs == 2 else (seed + hs) % 3
                 tbl = os.path.join(d, "groups.tsv" if layout < 2 else "groups.csv")
                 with open(tbl, "w") as f:
                     f.write(("#read\tgroup\n", "#group\tread\n", "#read,barcode,group\n")[layout])
                     for name, g in truth.items():
                         if g != "NA":
-                            f.write(("%s\t%s\n" % (name, g), "%s\t%s\n" % (g, name), "%s,ACGT%d,%s\n" % (name, len(name), g))[layout])
+                            # the comma-separated layout has a blank after each comma: the group is the field as it stands, blank included
+                            f.write(("%s\t%s\n" % (name, g), "%s\t%s\n" % (g, name), "%s, ACGT%d, %s\n" % (name, len(name), g))[layout])
+                if layout == 2:
+                    truth = {k_: (" " + v_ if v_ != "NA" else v_) for k_, v_ in truth.items()}
                 extra += ["--read_group", ("file:%s:0:1" % tbl, "file:%s:1:0" % tbl, "file:%s:0:2:," % tbl)[layout]]
         out = os.path.join(d, "out")
+        if mode == "tag" and hs % 4 == 0:
+            # integer-valued tag (e.g. HP:i:1 of haplotagged reads): the group is the value as text
+            ints_ = {}
+            for r_ in w.reads:
+                r_.tags = [(k_, ints_.setdefault(v_, len(ints_) + 1)) if k_ == "CB" else (k_, v_) for k_, v_ in r_.tags]
+            truth = {k_: (str(ints_[v_]) if v_ in ints_ else v_) for k_, v_ in truth.items()}
+            w.write_bam(os.path.join(d, "r.bam"))
+        if mode == "file" and hs == 2:
+            # killed right after the first chromosome was marked as collected, resumed: the groups of a collected chromosome are read back from a file
+            r1 = pipeline.run(d, out, threads=1, bam=bams, extra=extra, hashseed=str(hs), mon=["crash"],
+                              cfg={"crash_root": out, "crash_path": "_collected", "crash_path_k": 1, "crash_after": True}, events=out + "_ev")
+            if r1["rc"] == 137:
+                r = runner.run_isoquant(["--resume", "-o", out], os.path.join(d, "home"), hashseed=str(hs))
+                r["resumed"] = True
+                return job, d, w, truth, out, r
+            return job, d, w, truth, out, r1
         if mode == "file" and hs in (7, 9):
             # the run is killed while the read -> group table is being split per chromosome (right after the second file of that stage
             # was opened) and then resumed: the finished run must still count every read under the group of its table row
@@ -304,6 +327,39 @@ def run(chk, scratch):
         if chk.violations and not getattr(chk, "witness_files", None):
             chk.witness_files = [os.path.join(d, f) for f in os.listdir(d) if f.endswith((".bam", ".bai", ".gtf", ".fa", ".tsv"))]
         shutil.rmtree(out, ignore_errors=True)
+    # group names that begin with a blank (table "read, barcode, group" read with delimiter ","), one of them on the longest sequence only; the run
+    # is killed right after that sequence was marked as collected and resumed: the groups of a collected sequence are read back from a file
+    dws = os.path.join(scratch, "blank_groups")
+    wws = world2.rich_world(chk.seed * 100 + 91, n_chroms=3, genes_per_chrom=2, reads_per_t=4, hidden_cov=3, multimappers=False, unmapped=0)
+    longest_ = max(wws.chrom_order, key=wws.chrom_len)
+    pipeline.write_world(wws, dws)
+    truth_ws = {}
+    with open(os.path.join(dws, "g.csv"), "w") as f:
+        for i_, r_ in enumerate(wws.reads):
+            if r_.name in truth_ws:
+                continue
+            truth_ws[r_.name] = " only" if (r_.chrom == longest_ and i_ % 2 == 0) else " G%d" % (i_ % 2)
+            f.write("%s, x,%s\n" % (r_.name, truth_ws[r_.name]))
+    ows = os.path.join(dws, "out")
+    ews = ["--read_group", "file:%s:0:2:," % os.path.join(dws, "g.csv"), "--no_model_construction"]
+    r1 = pipeline.run(dws, ows, threads=1, extra=ews, mon=["crash"], cfg={"crash_root": ows, "crash_path": "_collected", "crash_path_k": 1, "crash_after": True}, events=ows + "_ev")
+    if r1["rc"] != 137:
+        chk.inconclusive.append("the run with blank-prefixed group names was not killed (exit %s)" % r1["rc"])
+    else:
+        r2 = runner.run_isoquant(["--resume", "-o", ows], os.path.join(dws, "home"))
+        chk.note()
+        chk.count("killed_and_resumed_runs_judged")
+        if r2["rc"] is None:
+            chk.inconclusive.append("watchdog expired in the resumed run with blank-prefixed group names")
+        elif r2["rc"] != 0:
+            chk.violation("resumed-run-failed:group-names-with-blanks", "groups ' only' (longest sequence only), ' G0', ' G1'; killed after the first sequence was collected; "
+                          "--resume: %s" % pipeline.fail_text(r2), {"world_seed": chk.seed * 100 + 91})
+        else:
+            hdr_, matrix_ = parse.read_matrix(os.path.join(ows, pipeline.PREFIX, pipeline.PREFIX + ".gene_grouped_counts.tsv"))
+            want_ = sorted(set(truth_ws.values()))
+            if sorted(hdr_) != want_:
+                chk.violation("group-universe:resumed:group-names-with-blanks", "resumed run has the groups %s, the table names %s" % (sorted(hdr_), want_),
+                              {"world_seed": chk.seed * 100 + 91})
     # two experiments in ONE invocation (tag mode, ungroupable reads in both, -t 1 and -t 2): the second experiment sees the same reads as the
     # first one and must produce the same grouped tables, with the NA column
     for threads in ((1, 2) if thorough else (1,)):
